@@ -1,5 +1,5 @@
 CFG = dict(
-    n={'quick': 360, 'thorough': 16000},
+    n={'quick': 340, 'thorough': 16000},
     oracle=True,
     reference=True,
     corr='Slhdsa.keygen/sign/verify/tink_sign/tink_verify (model/Slhdsa*.v over the stdlib hash oracle) vs internal/signature/slhdsa and signature/slhdsa through keyset handles, all twelve parameter sets',
